@@ -230,7 +230,33 @@ class SimExecutor:
             ctl.ctx.count('pool.submit.calls')
         f = cf.Future()
         try:
-            f.set_result(fn(*a, **kw))
+            if ctl is not None and ctl.fail_next and ctl.mode != 'parallel':
+                ctl.fail_next = False
+                ctl.fault_fired = True
+                ctl.ctx.count('fault.task-failure.fired')
+                raise TaskFailure('injected: worker task failed before running its chunk')
+            if ctl is None or ctl.mode == 'parallel':
+                f.set_result(fn(*a, **kw))
+            else:
+                # executed at once (code that submits and then waits with concurrent.futures.wait must not block),
+                # but on a real worker thread chosen by the schedule
+                wk = ctl.sched.choice(ctl.nworkers)
+                ctl.schedule.append(['submit', wk])
+                if wk:
+                    ctl.nontrivial = True
+                box = {}
+
+                def body():
+                    try:
+                        box['r'] = fn(*a, **kw)
+                    except BaseException as e:    # noqa
+                        box['e'] = e
+                t = threading.Thread(target=body, name='simworker-%d' % wk)
+                t.start()
+                t.join()
+                if 'e' in box:
+                    raise box['e']
+                f.set_result(box.get('r'))
         except BaseException as e:     # noqa
             f.set_exception(e)
         return f
@@ -250,6 +276,7 @@ class Controller:
         self.calls = 0
         self.schedule = []
         self.pool_size = None
+        self.fault_fired = False
 
     def note_pool_use(self):
         if self.pool_size is None:
@@ -306,6 +333,7 @@ class Controller:
             ctx.count('pool.sim.calls')
             if fail_at is not None:
                 ctx.count('fault.task-failure.fired')
+                self.fault_fired = True
         for e in errors:
             if e is not None:
                 raise e
@@ -697,19 +725,28 @@ def _run(ctx, kind, fam, ctl):
             if pyiga.get_max_threads() <= 1:
                 continue
             ctl.fail_next = True
+            ctl.fault_fired = False
             IJ = np.array([(i, j) for i in range(m) for j in range(n)], dtype=np.uintp)
             ctx.log(['multi_entries-with-failing-task'])
+            V = None
             try:
-                (asm.multi_blocks if case.vector else asm.multi_entries)(IJ)
+                V = (asm.multi_blocks if case.vector else asm.multi_entries)(IJ)
                 raised = False
-            except TaskFailure:
+            except Exception:     # noqa: the call may report the failure in whatever way it likes
                 raised = True
-            except Exception as e:     # noqa
-                ctx.violation('task-failure-wrong-exception', repr(e), sig('taskfail'))
-                return
             ctl.fail_next = False
-            ctx.check(raised, 'task-failure-swallowed', 'a worker task raised but the call returned normally',
-                      sig('taskfail'))
+            if not ctl.fault_fired:
+                ctx.count('fault.task-failure.not-reached')     # e.g. the implementation did not use the pool here
+            elif raised:
+                ctx.count('fault.task-failure.propagated')
+            else:
+                # the failure was absorbed (e.g. the chunk was recomputed elsewhere): legitimate as long as the
+                # returned values are right -- what must not happen is a silently wrong result
+                want = (R.reshape(m * n, *R.shape[2:]) if case.vector else R.reshape(-1))
+                got = np.asarray(V)
+                got = got.reshape(want.shape) if got.size == want.size else got
+                cmp_close(got, want, 'task-failure-wrong-result', 'a worker task failed, the call returned normally, and the result is wrong')
+                ctx.count('fault.task-failure.absorbed')
             continue
         if op == 'assemble':
             symmetric = bool(o.choice(2)) and case.symmetric_form and case.arity == 2
